@@ -563,6 +563,9 @@ func (a *DenseFloat32Matrix) UnmarshalJSON(data []byte) error {
   if err := json.Unmarshal(data, &r); err != nil {
     return err
   }
+  if r.Rows < 0 || r.Cols < 0 || len(r.Values) != r.Rows*r.Cols {
+    return fmt.Errorf("invalid json matrix representation")
+  }
   a.values = r.Values
   a.rows = r.Rows
   a.rowMax = r.Rows
